@@ -161,4 +161,6 @@ var RuleFloors = map[string]RuleFloor{
 	"COVERAGE":  {4, []string{"C20"}},
 	"RANK":      {17, []string{"C03", "C04", "C05", "C06"}},
 	"MERGE":     {10, []string{"C06"}},
+	"ORDERING":  {3, []string{"C09", "C10"}},
+	"QDIST":     {6, []string{"C04", "C08"}},
 }
